@@ -69,6 +69,22 @@ inductive RClass
   | point | line | text | compound
 deriving DecidableEq, Repr
 
+/-- the `operator` of a compound region: ANY callable is accepted by both constructors.  `std` are the three operators
+the public `&`, `|`, `^` build (shared `Impl.BoolOp`); `table` is an arbitrary Boolean function of the two component
+answers given by its truth table (`ff` = value at (False, False), `ft` at (False, True), …) — e.g. the set difference
+`a & ~b` is `table false false true false`.  Not commutative in general: the ORDER of the two answers matters. -/
+inductive ROp
+  | std (o : BoolOp)
+  | table (ff ft tf tt : Bool)
+deriving DecidableEq, Repr
+
+def ROp.apply : ROp → Bool → Bool → Bool
+  | .std o, a, b => o.apply a b
+  | .table ff _ _ _, false, false => ff
+  | .table _ ft _ _, false, true => ft
+  | .table _ _ tf _, true, false => tf
+  | .table _ _ _ tt, true, true => tt
+
 /-- pixel regions (`RegularPolygonPixelRegion` is a `PolygonPixelRegion` here: it inherits
 `to_sky` and is represented by its vertices). -/
 inductive PixR (α : Type) where
@@ -82,7 +98,7 @@ inductive PixR (α : Type) where
   | point (c : Pt α) (m : Meta) (v : Visual α)
   | line (a b : Pt α) (m : Meta) (v : Visual α)
   | text (c : Pt α) (t : String) (m : Meta) (v : Visual α)
-  | compound (op : BoolOp) (r1 r2 : PixR α) (m : Meta) (v : Visual α)
+  | compound (op : ROp) (r1 r2 : PixR α) (m : Meta) (v : Visual α)
 
 /-- sky regions; sizes in arcsec, angle `(cos, sin)` of the sky angle. -/
 inductive SkyR (Sky : Type) (α : Type) where
@@ -96,7 +112,7 @@ inductive SkyR (Sky : Type) (α : Type) where
   | point (c : Sky) (m : Meta) (v : Visual α)
   | line (a b : Sky) (m : Meta) (v : Visual α)
   | text (c : Sky) (t : String) (m : Meta) (v : Visual α)
-  | compound (op : BoolOp) (r1 r2 : SkyR Sky α) (m : Meta) (v : Visual α)
+  | compound (op : ROp) (r1 r2 : SkyR Sky α) (m : Meta) (v : Visual α)
 
 section accessors
 variable {Sky α : Type}
@@ -187,7 +203,7 @@ variable {Sky α : Type}
 
 /-- `CompoundPixelRegion.__init__(region1, region2, operator, meta=None, visual=None)`:
 `None` ⇒ region1's dictionary (the same object), otherwise the argument. -/
-def PixR.mkCompound (r1 r2 : PixR α) (op : BoolOp) (metaArg : Option Meta) (visualArg : Option (Visual α)) :
+def PixR.mkCompound (r1 r2 : PixR α) (op : ROp) (metaArg : Option Meta) (visualArg : Option (Visual α)) :
     PixR α :=
   .compound op r1 r2
     (match metaArg with | none => r1.metaD | some m => m)
@@ -195,7 +211,7 @@ def PixR.mkCompound (r1 r2 : PixR α) (op : BoolOp) (metaArg : Option Meta) (vis
 
 /-- `CompoundSkyRegion.__init__(region1, region2, operator, meta=None, visual=None)`:
 `None` ⇒ region1's dictionary, otherwise the argument (as `CompoundPixelRegion.__init__`; F2 fixed). -/
-def SkyR.mkCompound (r1 r2 : SkyR Sky α) (op : BoolOp) (metaArg : Option Meta) (visualArg : Option (Visual α)) :
+def SkyR.mkCompound (r1 r2 : SkyR Sky α) (op : ROp) (metaArg : Option Meta) (visualArg : Option (Visual α)) :
     SkyR Sky α :=
   .compound op r1 r2
     (match metaArg with | none => r1.metaD | some m => m)
@@ -365,32 +381,49 @@ def SkyR.toPixel (w : Wcs Sky α) : SkyR Sky α → PixR α
 
 /-! ### membership -/
 
-/-- the geometric content of a pixel region: the shared expression model of `Impl/Region.lean`
+/-- the geometric content of a pixel region in the shared expression model of `Impl/Region.lean`
 (the annulus helpers `_inner_region` / `_outer_region` are built with the annulus's own `meta`,
-which is what `PReg.contains` implements for the annulus constructors). -/
-def PixR.toPReg : PixR α → PReg α
-  | .circle c r m _ => .circle ⟨c, r⟩ m.inc
-  | .ellipse c w h d m _ => .ellipse ⟨c, w, h, d⟩ m.inc
-  | .rect c w h d m _ => .rect ⟨c, w, h, d⟩ m.inc
-  | .polygon vs m _ => .polygon ⟨vs⟩ m.inc
-  | .circleAnnulus c r1 r2 m _ => .circleAnnulus c r1 r2 m.inc
-  | .ellipseAnnulus c w1 w2 h1 h2 d m _ => .ellipseAnnulus c w1 h1 w2 h2 d m.inc
-  | .rectAnnulus c w1 w2 h1 h2 d m _ => .rectAnnulus c w1 h1 w2 h2 d m.inc
-  | .point c m _ => .empty .point c c m.inc
-  | .line a b m _ => .empty .line a b m.inc
-  | .text c _ m _ => .empty .text c c m.inc
-  | .compound op a b m _ => .compound op a.toPReg b.toPReg m.inc
+which is what `PReg.contains` implements for the annulus constructors).  `none` when a compound node carries an
+operator outside `&`, `|`, `^` (the shared model has no such node). -/
+def PixR.toPReg : PixR α → Option (PReg α)
+  | .circle c r m _ => some (.circle ⟨c, r⟩ m.inc)
+  | .ellipse c w h d m _ => some (.ellipse ⟨c, w, h, d⟩ m.inc)
+  | .rect c w h d m _ => some (.rect ⟨c, w, h, d⟩ m.inc)
+  | .polygon vs m _ => some (.polygon ⟨vs⟩ m.inc)
+  | .circleAnnulus c r1 r2 m _ => some (.circleAnnulus c r1 r2 m.inc)
+  | .ellipseAnnulus c w1 w2 h1 h2 d m _ => some (.ellipseAnnulus c w1 h1 w2 h2 d m.inc)
+  | .rectAnnulus c w1 w2 h1 h2 d m _ => some (.rectAnnulus c w1 h1 w2 h2 d m.inc)
+  | .point c m _ => some (.empty .point c c m.inc)
+  | .line a b m _ => some (.empty .line a b m.inc)
+  | .text c _ m _ => some (.empty .text c c m.inc)
+  | .compound (.std o) a b m _ =>
+    match a.toPReg, b.toPReg with
+    | some ga, some gb => some (.compound o ga gb m.inc)
+    | _, _ => none
+  | .compound (.table ..) _ _ _ _ => none
 
-/-- `PixelRegion.contains(pixcoord)`. -/
-def PixR.contains (r : PixR α) (p : Pt α) : Bool := r.toPReg.contains p
+/-- `PixelRegion.contains(pixcoord)`; `CompoundPixelRegion.contains`:
+`operator(region1.contains(pixcoord), region2.contains(pixcoord))` — region1's answer FIRST — negated unless included. -/
+def PixR.contains : PixR α → Pt α → Bool
+  | .compound op a b m _, p => withInclude m.inc (op.apply (a.contains p) (b.contains p))
+  | .circle c r m _, p => (PReg.circle ⟨c, r⟩ m.inc).contains p
+  | .ellipse c w h d m _, p => (PReg.ellipse ⟨c, w, h, d⟩ m.inc).contains p
+  | .rect c w h d m _, p => (PReg.rect ⟨c, w, h, d⟩ m.inc).contains p
+  | .polygon vs m _, p => (PReg.polygon ⟨vs⟩ m.inc).contains p
+  | .circleAnnulus c r1 r2 m _, p => (PReg.circleAnnulus c r1 r2 m.inc).contains p
+  | .ellipseAnnulus c w1 w2 h1 h2 d m _, p => (PReg.ellipseAnnulus c w1 h1 w2 h2 d m.inc).contains p
+  | .rectAnnulus c w1 w2 h1 h2 d m _, p => (PReg.rectAnnulus c w1 h1 w2 h2 d m.inc).contains p
+  | .point c m _, p => (PReg.empty .point c c m.inc : PReg α).contains p
+  | .line a b m _, p => (PReg.empty .line a b m.inc).contains p
+  | .text c _ m _, p => (PReg.empty .text c c m.inc : PReg α).contains p
 
 /-- `SkyRegion.contains(skycoord, wcs)`:
 circle, ellipse, rectangle, polygon, the annuli (base class): `self.to_pixel(wcs).contains(PixCoord.from_sky(skycoord, wcs))`;
 `PointSkyRegion` / `LineSkyRegion` (and `TextSkyRegion`, a subclass of the point) override it without any
 conversion: `in_reg = False` (or an array of `False`), returned as is or negated when excluded — per position
 `not include`;
-`CompoundSkyRegion.contains`: `operator(region1.contains(…), region2.contains(…))`, negated
-unless `self.meta.get('include', True)`. -/
+`CompoundSkyRegion.contains`: `operator(region1.contains(…), region2.contains(…))` — region1's answer FIRST —,
+negated unless `self.meta.get('include', True)`. -/
 def SkyR.contains (w : Wcs Sky α) : SkyR Sky α → Sky → Bool
   | .compound op a b m _, q => withInclude m.inc (op.apply (a.contains w q) (b.contains w q))
   | .circle c r m v, q => ((SkyR.circle c r m v).toPixel w).contains (w.toPix q)
